@@ -46,6 +46,19 @@ def main():
         print(out)
         return 2
     res = {"id": sid, "property": meta["property"]}
+    res["repo_head"] = sh(["git", "-C", "/repo", "rev-parse", "--short", "HEAD"])[1].strip()
+    prev_path = os.path.join(dst, "confirm.json")
+    if not run_tests and os.path.exists(prev_path):
+        # keep the outcome of an earlier run of the test-suite against this change
+        try:
+            prev = json.load(open(prev_path))
+            for k in ("tests_failed_set_equals_baseline", "tests_summary", "tests_diff", "tests_repo_head"):
+                if k in prev:
+                    res[k] = prev[k]
+            if "tests_failed_set_equals_baseline" in prev and "tests_repo_head" not in prev:
+                res["tests_repo_head"] = prev.get("repo_head", "earlier")
+        except Exception:  # noqa
+            pass
     env = dict(os.environ, PYTHONPATH=wt, VERIF_REPO=wt)
     py = ["/venv/bin/python"] + (["-O"] if meta["property"] == "C15" else [])
     try:
@@ -67,6 +80,7 @@ def main():
             fs = failed_set(out)
             res["tests_failed_set_equals_baseline"] = (fs == base)
             res["tests_summary"] = [l for l in out.split("\n") if "passed" in l][-1:]
+            res["tests_repo_head"] = res["repo_head"]
             if fs != base:
                 res["tests_diff"] = {"extra": sorted(set(fs) - set(base)), "missing": sorted(set(base) - set(fs))}
         res["checks"] = {}
